@@ -13,6 +13,7 @@ import subprocess
 import sys
 
 SLOT_BASE = 0
+SEEDED = 'seeded'
 VERIF = os.path.dirname(os.path.dirname(os.path.abspath(__file__)))
 
 
@@ -29,7 +30,7 @@ def worker(slot, jobs_list, checks):
     out = {}
     try:
         for mid in jobs_list:
-            patch = os.path.join(VERIF, 'seeded', mid, 'patch.diff')
+            patch = os.path.join(VERIF, SEEDED, mid, 'patch.diff')
             sh('git -C %s checkout -q -- . && git -C %s clean -fdq' % (mw, mw))
             r = sh('git -C %s apply %s' % (mw, patch))
             if r.returncode != 0:
@@ -59,21 +60,23 @@ def main():
     ap.add_argument('--checks')
     ap.add_argument('--jobs', type=int, default=4)
     ap.add_argument('--slot-base', type=int, default=0)
+    ap.add_argument('--dir', default='seeded', help='seeded (changes that break a property) or neutral (changes that must not be flagged)')
     ap.add_argument('ids', nargs='*')
     a = ap.parse_args()
-    global SLOT_BASE
+    global SLOT_BASE, SEEDED
     SLOT_BASE = a.slot_base
+    SEEDED = a.dir
     man = json.load(open(os.path.join(VERIF, 'MANIFEST.json')))
     checks = a.checks.split(',') if a.checks else [c['property_id'] for c in man['checks']]
-    ids = a.ids or sorted(d for d in os.listdir(os.path.join(VERIF, 'seeded'))
-                          if os.path.exists(os.path.join(VERIF, 'seeded', d, 'patch.diff')))
+    ids = a.ids or sorted(d for d in os.listdir(os.path.join(VERIF, SEEDED))
+                          if os.path.exists(os.path.join(VERIF, SEEDED, d, 'patch.diff')))
     jobs = max(1, min(a.jobs, len(ids)))
     parts = [ids[i::jobs] for i in range(jobs)]
     results = {}
     with cf.ThreadPoolExecutor(jobs) as ex:
         for r in ex.map(lambda t: worker(t[0], t[1], checks), enumerate(parts)):
             results.update(r)
-    path = os.path.join(VERIF, 'seeded', 'results.json')
+    path = os.path.join(VERIF, SEEDED, 'results.json')
     old = json.load(open(path)) if os.path.exists(path) else {}
     for m, r in results.items():
         old.setdefault(m, {}).update(r)
